@@ -1,8 +1,11 @@
 /-
-  C17 — `fillPartitionMapV2` answers (no `nil.(loadItem)` panic, no index panic) whenever every old list
-  is no longer than `replica`, the old layout has no more partitions than requested, and there are at
-  least `replica ≥ 1` live names. This is the exact complement of §9-F5: the panic needs an old list
-  LONGER than the replication factor (or more old partitions than `partitionNum`).
+  C17 — `fillPartitionMapV2` answers (no `nil.(loadItem)` panic, no index panic) for EVERY old layout with
+  no more partitions than requested, whenever there are at least `replica ≥ 1` live names: old lists of
+  any length, with any number of dead names, with or without repeated names. The fill loop works on the
+  first `replica` names of an old list only (the repair of §9-F5: before it, the whole old list was
+  excluded and an old list longer than the replication factor that covered every live node left no
+  candidate), so at position j the excluded names are the j names already listed plus at most
+  `replica - j - 1` old names still to come: fewer than `replica` ≤ number of live names.
 -/
 import ZanVerif.Place.ModelV2
 
@@ -127,7 +130,8 @@ theorem bump_names (pid j : Nat) (m : Item α) (items : List (Item α)) :
     (bump pid j m items).map (·.name) = items.map (·.name) :=
   names_updItem _ _ _ (fun _ => rfl)
 
-/-- the candidate set is never empty while the old list is no longer than `replica` -/
+/-- the candidate set is never empty while the old list the loop works on is no longer than `replica`
+    (`fillAll` passes `oldlist.take replica`) -/
 theorem fillRow_total (nm : List α) (hnm : nm.Nodup) (replica parts pid : Nat) (hpid : pid < parts)
     (hrn : replica ≤ nm.length) (oldlist : List α) (holdlen : oldlist.length ≤ replica) :
     ∀ (r j : Nat) (items : List (Item α)) (acc excl : List α),
@@ -206,17 +210,10 @@ theorem fillRow_total (nm : List α) (hnm : nm.Nodup) (replica parts pid : Nat) 
             rw [← inv.names] at hon
             exact absurd hon (hdead _ hio)
 
-theorem getD_length_le {old : List (List α)} {replica : Nat} (hold : ∀ ol ∈ old, ol.length ≤ replica) (pid : Nat) :
-    (old.getD pid []).length ≤ replica := by
-  rw [getD_eq_getElem?_getD]
-  cases h : old[pid]? with
-  | none => simp
-  | some ol => exact hold ol (mem_of_getElem? h)
-
 theorem fillAll_total (nm : List α) (hnm : nm.Nodup) (replica parts : Nat) (hrn : replica ≤ nm.length)
-    (old : List (List α)) (hold : ∀ ol ∈ old, ol.length ≤ replica) :
+    (old : List (List α)) :
     ∀ (k pid : Nat) (items : List (Item α)) (rows : List (List α)),
-      pid + k = parts → items.map (·.name) = nm → Bnd parts items →
+      pid + k ≤ parts → items.map (·.name) = nm → Bnd parts items →
       ∃ st, fillAll replica old k pid items rows = .ok st ∧ Bnd parts st.items ∧
         st.items.map (·.name) = nm ∧ st.rows.length = rows.length + k := by
   intro k
@@ -226,8 +223,8 @@ theorem fillAll_total (nm : List α) (hnm : nm.Nodup) (replica parts : Nat) (hrn
     intro pid items rows hpk hn hb
     simp only [fillAll]
     obtain ⟨items', row, hrow, hb', hn'⟩ :=
-      fillRow_total nm hnm replica parts pid (by omega) hrn _ (getD_length_le hold pid) replica 0 items []
-        (old.getD pid [])
+      fillRow_total nm hnm replica parts pid (by omega) hrn ((old.getD pid []).take replica)
+        (length_take_le _ _) replica 0 items [] ((old.getD pid []).take replica)
         ⟨hn, by omega, rfl, (fun x hx => Or.inl hx), (fun i o hi => absurd hi (Nat.not_lt_zero _))⟩ hb
     rw [hrow]
     simp only
@@ -322,9 +319,10 @@ theorem moveLoop_total (nm : List α) (hn0 : nm ≠ []) (parts : Nat) : ∀ (k :
     | true => exact ⟨s1, rfl⟩
     | false => exact ih s1 h2 h3 h4
 
-/-- **fillPartitionMapV2 answers** (none of the two panics) under the stated bounds on the old layout -/
+/-- **fillPartitionMapV2 answers** (none of the two panics) for every old layout with at most `parts`
+    partitions — no bound on the length of the old lists, no assumption on their contents -/
 theorem fillV2_total (sel parts replica : Nat) (old : List (List α)) (sorted : List α) (hnd : sorted.Nodup)
-    (hr0 : 0 < replica) (hrn : replica ≤ sorted.length) (hold : ∀ ol ∈ old, ol.length ≤ replica)
+    (hr0 : 0 < replica) (hrn : replica ≤ sorted.length)
     (hparts : old.length ≤ parts) : ∃ rows, fillV2 sel parts replica old sorted = .ok rows := by
   unfold fillV2
   simp only
@@ -332,7 +330,7 @@ theorem fillV2_total (sel parts replica : Nat) (old : List (List α)) (sorted : 
   obtain ⟨g1, _⟩ := addOld_spec old (mkItems sel sorted.length 0 sorted) 0
   have hb1 : Bnd parts (addOld (mkItems sel sorted.length 0 sorted) 0 old) :=
     addOld_bnd old _ 0 (by omega) (mkItems_bnd parts sel sorted.length 0 sorted)
-  obtain ⟨st, h1, h2, h3, h4⟩ := fillAll_total sorted hnd replica parts hrn old hold parts 0 _ []
+  obtain ⟨st, h1, h2, h3, h4⟩ := fillAll_total sorted hnd replica parts hrn old parts 0 _ []
     (by omega) (g1.1.trans hn0) hb1
   rw [h1]
   simp only
@@ -341,5 +339,110 @@ theorem fillV2_total (sel parts replica : Nat) (old : List (List α)) (sorted : 
   obtain ⟨s', h5⟩ := moveLoop_total sorted hne parts (moveCalls replica parts) st h3 h2 (by rw [h4]; simp)
   rw [h5]
   exact ⟨_, rfl⟩
+
+/-! ### the empty-candidates panic is unreachable, whatever the old layout -/
+
+theorem moveIfUnbalanced_names {s s' : V2St α} {b : Bool} (h : moveIfUnbalanced s = .ok (s', b)) :
+    s'.items.map (·.name) = s.items.map (·.name) := by
+  have hx : ∀ (a c : α) (f1 f2 : Item α → Item α), (∀ it, (f1 it).name = it.name) → (∀ it, (f2 it).name = it.name) →
+      (updItem (updItem s.items a f1) c f2).map (·.name) = s.items.map (·.name) :=
+    fun a c f1 f2 h1 h2 => apply_names s.items a c f1 f2 h1 h2
+  unfold moveIfUnbalanced at h
+  split at h
+  · split at h
+    · unfold leaderMove at h
+      split at h
+      · simp only [Outcome.ok.injEq, Prod.mk.injEq] at h; rw [← h.1]
+      · split at h
+        · cases h
+        · split at h
+          · simp only [Outcome.ok.injEq, Prod.mk.injEq] at h; rw [← h.1]
+            exact hx _ _ _ _ (fun _ => rfl) (fun _ => rfl)
+          · simp only [Outcome.ok.injEq, Prod.mk.injEq] at h; rw [← h.1]
+            exact hx _ _ _ _ (fun _ => rfl) (fun _ => rfl)
+    · split at h
+      · split at h
+        · unfold replicaMove at h
+          split at h
+          · simp only [Outcome.ok.injEq, Prod.mk.injEq] at h; rw [← h.1]
+          · split at h
+            · cases h
+            · simp only [Outcome.ok.injEq, Prod.mk.injEq] at h; rw [← h.1]
+              exact hx _ _ _ _ (fun _ => rfl) (fun _ => rfl)
+        · simp only [Outcome.ok.injEq, Prod.mk.injEq] at h; rw [← h.1]
+      · cases h
+  · cases h
+
+theorem moveIfUnbalanced_ne_panicEmpty (s : V2St α) (hne : s.items ≠ []) : moveIfUnbalanced s ≠ .panicEmpty := by
+  obtain ⟨mn, hmin⟩ := minBy_isSome (lt := leaderLt) hne
+  obtain ⟨mx, hmax⟩ := maxBy_isSome (lt := leaderLt) hne
+  obtain ⟨mn2, hmin2⟩ := minBy_isSome (lt := replicaLt) hne
+  obtain ⟨mx2, hmax2⟩ := maxBy_isSome (lt := replicaLt) hne
+  unfold moveIfUnbalanced
+  rw [hmin, hmax]
+  simp only
+  split
+  · unfold leaderMove
+    repeat' split
+    all_goals simp
+  · rw [hmin2, hmax2]
+    simp only
+    split
+    · unfold replicaMove
+      repeat' split
+      all_goals simp
+    · simp
+
+theorem moveLoop_ne_panicEmpty : ∀ (k : Nat) (s : V2St α), s.items ≠ [] → moveLoop k s ≠ .panicEmpty := by
+  intro k
+  induction k with
+  | zero => intro s _; simp [moveLoop]
+  | succ k ih =>
+    intro s hne
+    simp only [moveLoop]
+    cases hm : moveIfUnbalanced s with
+    | refused => simp
+    | panicEmpty => exact absurd hm (moveIfUnbalanced_ne_panicEmpty s hne)
+    | panicIndex => simp
+    | ok v =>
+      obtain ⟨s1, b⟩ := v
+      cases b with
+      | true => simp
+      | false =>
+        simp only
+        apply ih
+        intro e
+        have hn := moveIfUnbalanced_names hm
+        rw [e] at hn
+        exact hne (map_eq_nil_iff.mp hn.symm)
+
+/-- **no `nil.(loadItem)` panic, unconditionally**: with `replica ≥ 1` and at least `replica` live names
+    `fillPartitionMapV2` never meets an empty candidate set — for every old layout whatsoever (lists of any
+    length and content, any number of old partitions). What is left besides an answer is the index panic
+    of an old layout with MORE partitions than requested (`fillV2_total` excludes it by `hparts`). -/
+theorem fillV2_ne_panicEmpty (sel parts replica : Nat) (old : List (List α)) (sorted : List α) (hnd : sorted.Nodup)
+    (hr0 : 0 < replica) (hrn : replica ≤ sorted.length) : fillV2 sel parts replica old sorted ≠ .panicEmpty := by
+  unfold fillV2
+  simp only
+  have hn0 : (mkItems sel sorted.length 0 sorted).map (·.name) = sorted := mkItems_names _ _ _ _
+  obtain ⟨g1, _⟩ := addOld_spec old (mkItems sel sorted.length 0 sorted) 0
+  -- the stored pids are bounded by the larger of the two partition counts
+  have hb1 : Bnd (max parts old.length) (addOld (mkItems sel sorted.length 0 sorted) 0 old) :=
+    addOld_bnd old _ 0 (by omega) (mkItems_bnd _ sel sorted.length 0 sorted)
+  obtain ⟨st, h1, _, h3, _⟩ := fillAll_total sorted hnd replica (max parts old.length) hrn old parts 0 _ []
+    (by omega) (g1.1.trans hn0) hb1
+  rw [h1]
+  simp only
+  have hne : st.items ≠ [] := by
+    intro e
+    rw [e] at h3
+    rw [← h3] at hrn
+    simp at hrn
+    omega
+  cases hm : moveLoop (moveCalls replica parts) st with
+  | refused => simp
+  | panicEmpty => exact absurd hm (moveLoop_ne_panicEmpty _ st hne)
+  | panicIndex => simp
+  | ok v => simp
 
 end Z.Place
